@@ -956,6 +956,7 @@ func jobs(thorough bool, rnd *rand.Rand) []job {
 		add("chain", famChain(2+rnd.Intn(4), rnd.Intn(2) == 0, -1))
 		add("chain", famChain(6, false, -1))
 		add("walk", famWalk(10))
+		widenJobs(thorough, add)
 		return out
 	}
 	for rep := 0; rep < 4; rep++ {
@@ -1015,5 +1016,6 @@ func jobs(thorough bool, rnd *rand.Rand) []job {
 	for i := 0; i < 30; i++ {
 		add("walk", famWalk(14))
 	}
+	widenJobs(thorough, add)
 	return out
 }
